@@ -67,6 +67,10 @@ def hex_tok(draw):
     k = draw(st.integers(0, 9))
     if k < 4:
         b = draw(st.binary(min_size=1, max_size=4))
+    elif k < 6 and draw(st.integers(0, 3)) == 0:
+        # literals whose text begins like the prefix of another notation when written without 0x: 0b.. (bit strings elsewhere), 0e.., 0d.., 0a..
+        lead = draw(st.sampled_from([0x0b, 0x0b, 0x0b, 0x0e, 0x0d, 0x0a, 0x0c, 0x0f]))
+        b = bytes([lead]) + draw(st.one_of(st.just(b''), st.sampled_from([b'\x10', b'\x01', b'\x01\xff', b'\x11\x01']), st.binary(min_size=19, max_size=19), st.binary(min_size=0, max_size=6)))
     elif k < 6:
         b = draw(st.sampled_from([b'\x00', b'\x80', b'\x01', b'\x10', b'\x11', b'\x81', b'\x00\x00', b'\x01\x00', b'\x00\x80', b'\xff\x00', b'\xff\x80', b'\x7f', b'\xff',
                                   b'\x00\x00\x00\x80', b'\x00\x00\x00\x00', b'\x01\x00\x00\x00', b'']))
